@@ -144,8 +144,8 @@ impl Out {
 			Ok(()) => "ok".into(),
 			// an error text of the form "KF <key> <reason>" is a failure that the harness's matcher
 			// attributes to the known-finding key <key>; ./check accepts it only if the key is listed
-			Err(e) if e.starts_with("KF ") => e.replace('\n', " "),
-			Err(e) => format!("FAIL {}", e.replace('\n', " ")),
+			Err(e) if e.starts_with("KF ") => e.replace(['\n', '\r'], " "),
+			Err(e) => format!("FAIL {}", e.replace(['\n', '\r'], " ")),
 		});
 	}
 	pub fn write(&self, dir: &str) {
